@@ -535,6 +535,7 @@ def _dcog_samples():
             scheduler=fix.get("scheduler", rnd.choice(["synchronous", "threads"])),
             rotated=fix.get("rotated", rnd.random() < 0.2),
             crs=rnd.choice(["EPSG:4326", "EPSG:3857", "EPSG:32633"]),
+            huge=fix.get("huge", False),
         )
 
     def no_predictor_without_compression(c):
@@ -555,6 +556,9 @@ def _dcog_samples():
             dict(shape=(100, 120), layout="yx", dtype="uint8", blocksize=[64], chunks=(64, 64), compression="NONE"),  # uncompressed tiles
             dict(shape=(33, 70), layout="syx", nsamples=2, dtype="float32", nodata=float("nan"), blocksize=[32], chunks=(33, 35), compression="NONE", spill_sz=1),  # wide tiles; last tile column as wide as a tile is tall
             dict(shape=(50, 96), layout="syx", nsamples=2, dtype="int16", blocksize=[(32, 64), (16, 32)], chunks=(32, 64)),
+            dict(shape=(70, 90), layout="yx", dtype="int32", blocksize=[32], chunks=(32, 32), huge=True),  # band statistics with many digits
+            dict(shape=(40, 40), layout="syx", nsamples=3, dtype="uint32", nodata=0, blocksize=[16], chunks=(16, 16), huge=True),
+            dict(shape=(33, 47), layout="yxs", nsamples=3, dtype="float64", blocksize=[16], chunks=(33, 47), huge=True, compression="NONE"),
         ]
         i = 0
         for f in fixed:
@@ -564,7 +568,7 @@ def _dcog_samples():
             yield dict(case=no_predictor_without_compression(one(i)))
             i += 1
 
-    return "11 fixed + 24 (quick) / 120 (thorough) pseudo-random combinations of 7 shapes (incl. single row / column, narrower than a tile) x YX / YXS / SYX x dtypes x nodata x block-size lists x compression (incl. none) / predictor x source chunking x spill size x writes per chunk x synchronous / threaded scheduler x CRS x rotated", gen()
+    return "14 fixed (incl. full-range int32 / uint32 and 1e300-sized float64 values) + 24 (quick) / 120 (thorough) pseudo-random combinations of 7 shapes (incl. single row / column, narrower than a tile) x YX / YXS / SYX x dtypes x nodata x block-size lists x compression (incl. none) / predictor x source chunking x spill size x writes per chunk x synchronous / threaded scheduler x CRS x rotated", gen()
 
 
 def _dcog_oracle(args, run=None):
@@ -595,8 +599,15 @@ def _dcog_oracle(args, run=None):
     rng = np.random.default_rng(c["idx"])
     ns = c["nsamples"]
     full = {"yx": (h, w), "yxs": (h, w, ns), "syx": (ns, h, w)}[c["layout"]]
-    if c["dtype"] == "float32":
-        pix = rng.normal(0, 100, size=full).astype("float32")
+    if c.get("huge"):
+        # values whose statistics need many digits (full range of wide integer types, 1e300-sized floats)
+        if np.dtype(c["dtype"]).kind == "f":
+            pix = (rng.normal(0, 1, size=full) * 1e30).astype(c["dtype"]) if c["dtype"] == "float32" else rng.normal(0, 1, size=full) * 1e300
+        else:
+            ii = np.iinfo(c["dtype"])
+            pix = rng.integers(ii.min, ii.max, size=full, endpoint=True, dtype=c["dtype"])
+    elif np.dtype(c["dtype"]).kind == "f":
+        pix = rng.normal(0, 100, size=full).astype(c["dtype"])
     else:
         ii = np.iinfo(c["dtype"])
         pix = rng.integers(max(ii.min, -30000), min(ii.max, 30000), size=full, endpoint=True).astype(c["dtype"])
@@ -619,12 +630,29 @@ def _dcog_oracle(args, run=None):
     fails = []
     with tempfile.TemporaryDirectory(prefix="pyvc_c05_") as tmp:
         dst = os.path.join(tmp, "out.tif")
+        import signal
+
+        class _Stalled(Exception):
+            pass
+
+        def _alarm(*a):
+            raise _Stalled()
+
+        old = signal.signal(signal.SIGALRM, _alarm) if hasattr(signal, "SIGALRM") else None
         try:
+            if old is not None:
+                signal.alarm(180)  # a write of a few thousand pixels that has not finished by then never will
             fut = save_cog_with_dask(xx, dst, **kw)
             with dask.config.set(scheduler=c["scheduler"]):
                 fut.compute()
+        except _Stalled:
+            return ["post:the write terminates (no result after 180 s)"]
         except Exception as e:  # pylint: disable=broad-except
             return [f"no-exception:{type(e).__name__}: {str(e)[:200]}"]
+        finally:
+            if old is not None:
+                signal.alarm(0)
+                signal.signal(signal.SIGALRM, old)
         with open(dst, "rb") as f:
             data = f.read()
     want = pix if c["layout"] != "yxs" else pix.transpose([2, 0, 1])
@@ -831,4 +859,118 @@ contract(
     trusted_reason="numpy.pad / buffer protocol: BOUNDED native check of the uncompressed tile bytes (the data flow for every size is lemma cog.tile_padding_flow)",
     native_samples=_pad_samples,
     native_oracle=_pad_oracle,
+)
+
+
+# ---- _patch_hdr: tile offsets are shifted by the FINAL header size (measured after everything that can move the header's end) -------
+
+
+def _lemma_patch_hdr_flow(n_pages, with_stats, size0, grow, t0, t1):
+    """the real _patch_hdr over a stand-in TIFF editor: the header buffer has size0 bytes; overwriting the metadata tag with
+    a longer text makes tifffile append it, i.e. the buffer GROWS by `grow` >= 0 bytes (0 when it fits in place)"""
+    import sys as _sys
+    import types
+
+    m = repo(TF)
+    log = []
+    state = dict(size=size0)
+
+    class Buf:
+        def __init__(self, hdr0):
+            log.append(("open", hdr0))
+
+        def getbuffer(self):
+            return Sized(state["size"])
+
+    class Sized:
+        def __init__(self, n):
+            self.n = n
+
+        def __len__(self):
+            if isinstance(self.n, int):
+                return self.n
+            raise TypeError("stand-in buffer of symbolic size reached native len()")
+
+        def __symlen__(self):
+            return self.n
+
+        def __bytes__(self):
+            return b"patched-header"
+
+    class Tag:
+        def __init__(self, page, code):
+            self.page, self.code = page, code
+
+        def overwrite(self, value):
+            log.append(("overwrite", self.page, self.code, value, state["size"]))
+            if self.code == 42112:
+                state["size"] = state["size"] + grow
+
+    class Tags:
+        def __init__(self, page):
+            self.page = page
+
+        def get(self, code, default=None):
+            return Tag(self.page, code)
+
+        def __getitem__(self, code):
+            return Tag(self.page, code)
+
+    class Page:
+        def __init__(self, k):
+            self.k, self.tags = k, Tags(k)
+
+    class Pages(list):
+        @property
+        def first(self):
+            return self[0]
+
+    class Tiff:
+        def __init__(self, bio, mode=None, name=None):
+            log.append(("tiff", mode))
+            self.pages = Pages(Page(k) for k in range(n_pages))
+
+        def __enter__(self):
+            return self
+
+        def __exit__(self, *a):
+            return False
+
+    ghost_tf = types.ModuleType("tifffile")
+    ghost_tf.TiffFile, ghost_tf.TiffPage = Tiff, Page
+    table = [([t0 + 10 * k, t1 + 10 * k], [7, 9]) for k in range(n_pages)]
+    saved = (m.BytesIO, m._extract_tile_info, m._render_gdal_metadata, m.bytes if hasattr(m, "bytes") else None, _sys.modules.get("tifffile"))
+    try:
+        m.BytesIO = Buf
+        m._extract_tile_info = lambda meta, tiles, start=0: (log.append(("extract", list(tiles), start)), table)[1]
+        m._render_gdal_metadata = lambda stats, **kw: ("rendered", tuple(map(id, stats)) if isinstance(stats, list) else id(stats))
+        _sys.modules["tifffile"] = ghost_tf
+        stats = [dict(minimum=0.0)] if with_stats else None
+        out = m._patch_hdr([(7, (0, 0, 0, 0)), (9, (0, 0, 0, 1))], "META", "HDR0", stats)
+    finally:
+        m.BytesIO, m._extract_tile_info, m._render_gdal_metadata = saved[:3]
+        if saved[4] is not None:
+            _sys.modules["tifffile"] = saved[4]
+        else:
+            _sys.modules.pop("tifffile", None)
+    final = size0 + (grow if with_stats else 0)
+    ex = [e for e in log if e[0] == "extract"]
+    claim(len(ex) == 1 and ex[0][1] == [(0, 0, 0, 0, 7), (0, 0, 0, 1, 9)] and ex[0][2] == 0, "the offset table is computed from the observed (size, tile) stream, relative to the end of the header")
+    ow = [e for e in log if e[0] == "overwrite"]
+    md = [e for e in ow if e[2] == 42112]
+    claim((len(md) == 1 and md[0][1] == 0) if with_stats else md == [], "statistics are rendered into the metadata tag of the first page when given")
+    for k in range(n_pages):
+        offs = [e for e in ow if e[1] == k and e[2] == 324]
+        lens = [e for e in ow if e[1] == k and e[2] == 325]
+        claim(len(offs) == 1 and len(offs[0][3]) == 2 and all(bool(v == o + final) for v, o in zip(offs[0][3], table[k][0])), f"page {k}: every tile offset = its position in the tile stream + the FINAL size of the header (after the metadata was written)")
+        claim(len(lens) == 1 and list(lens[0][3]) == table[k][1], f"page {k}: byte counts as observed")
+
+
+lemma(
+    "cog.patch_hdr_flow",
+    ["C05"],
+    inputs=dict(n_pages=OneOf(1, 2, 3), with_stats=Bool(), size0=Int(ge=8), grow=Int(ge=0), t0=Int(ge=0), t1=Int(ge=0)),
+    body=_lemma_patch_hdr_flow,
+    unstub=[f"{TF}:_patch_hdr", f"{TF}:_extract_tile_info"],
+    note="data flow of the real _patch_hdr over a stand-in TIFF editor whose buffer grows by a symbolic amount when the statistics text does not fit in place: tile offsets use the header size measured AFTER that",
 )
